@@ -38,8 +38,8 @@ P["C09"]=dict(level="other",
  bounds="as C07, ShardedMap and ShardedMapOf[int] (SyncMap is keyed by the full string, see C07); Read/Write/Delete",
  outside="keys longer than 2 bytes; real 64-byte xxhash collisions are subsumed by the arbitrary hash function but not replayed with the real hash",
  assumptions=["xxhash.Sum64 is an uninterpreted function (any hash function)","representation invariant assumed for the pre-state: at most one entry per hash slot"],
- quick=dict(harnesses=["verifH_C09_ShardedMapOf_keyed"], jobs=1, workers=14),
- thorough=dict(harnesses=["verifH_C09_ShardedMap_keyed","verifH_C09_ShardedMapOf_keyed"], jobs=2, workers=7))
+ quick=dict(harnesses=["verifH_C09_ShardedMapOf_keyed","verifH_C09_ShardedMapOf_batch","verifH_C09_ShardedMapOf_ls"], jobs=3, workers=10),
+ thorough=dict(harnesses=["verifH_C09_ShardedMap_keyed","verifH_C09_ShardedMap_batch","verifH_C09_ShardedMap_ls","verifH_C09_ShardedMapOf_keyed","verifH_C09_ShardedMapOf_batch","verifH_C09_ShardedMapOf_ls"], jobs=3, workers=5))
 
 P["C15"]=dict(level="other",
  explanation="Real NewInvalidationIndex/AddCache/AddLabels/AddInvalidationLabels/InvalidateByLabels/invalidateByLabels(+deferred put-back)/cutKeys executed symbolically with scripted deleter stubs: the key/label incidence bits, repeated labelling, label argument order and multiplicity, an ErrNotFound answer, the position of a failing Delete call (in either of two deleters), map iteration order (2 permutations) are solver variables the code branches on; every index/slice bound and explicit panic is an obligation. After a nil return every labelled key was passed to every deleter of its name exactly once, no other key was, count = removed entries; on failure the deleter's error is returned and a retry after recovery removes every labelled key. A second harness uses the real ShardedMap/SyncMap/ShardedMapOf Delete as deleter.",
@@ -65,13 +65,15 @@ P["C13"]=dict(level="other",
  quick=dict(harnesses=["verifH_C13_Sharded_Sharded","verifH_C13_Sharded_Sync","verifH_C13_Sync_Sharded","verifH_C13_Sync_Sync","verifH_C13_ShardedOf_relay"], jobs=5, workers=3),
  thorough=dict(harnesses=["verifH_C13_Sharded_Sharded","verifH_C13_Sharded_Sync_relay","verifH_C13_Sync_Sharded_relay","verifH_C13_Sync_Sync","verifH_C13_ShardedOf_relay"], jobs=5, workers=3))
 
-P["C17"]=dict(level="other",
- explanation="Sequential part: 3 (quick) or 4 (thorough) consecutive calls of the real (*Invalidator).Invalidate with a symbolic non-decreasing clock (every reading a fresh SMT variable), SkipInterval any int64 (0 means 15s), 0..3 callbacks (nil slice included). Acceptance of each call is compared with 'now - lastAccepted >= SkipInterval' (first call always accepted), accepted calls must run every callback once in registration order with the caller's context, rejected ones none and report ErrAlreadyInvalidated, no callbacks ErrNothingToInvalidate; accepted lastRun instants differ by at least SkipInterval. Concurrent calls are decided by the C17 concurrency harness (see level_note).",
+P["C17"]=dict(level="model_checking",
+ explanation="Sequential part: 3 (quick) or 4 (thorough) consecutive calls of the real (*Invalidator).Invalidate with a symbolic non-decreasing clock (every reading a fresh SMT variable), SkipInterval any int64 (0 means 15s), 0..3 callbacks (nil slice included). Acceptance of each call is compared with 'now - lastAccepted >= SkipInterval' (first call always accepted), accepted calls must run every callback once in registration order with the caller's context, rejected ones none and report ErrAlreadyInvalidated, no callbacks ErrNothingToInvalidate; accepted lastRun instants differ by at least SkipInterval. Concurrent part: 2 (quick) and 3 (thorough) concurrent Invalidate calls are explored thread by thread in event mode (every access to shared state of the real code - the embedded mutex, SkipInterval, lastRun - is an event; Lock..Unlock regions over consistently protected locations are fused by Lipton reduction) and composed with a symbolic scheduler (clock variables + read-from relation): for every schedule, callbacks of different accepted calls never interleave, accepted calls are spaced by SkipInterval, every accepted call ran every callback once in order, rejected ones none, no deadlock, no unlock of an unlocked mutex.",
  bounds="<=4 sequential calls, <=3 callbacks, clock in [2^60,2^62]",
  outside="more than 4 calls",
  assumptions=[],
- quick=dict(harnesses=["verifH_C17_Seq3"], jobs=1, workers=8),
- thorough=dict(harnesses=["verifH_C17_Seq4"], jobs=1, workers=14))
+ quick=dict(harnesses=["verifH_C17_Seq3"], jobs=1, workers=8, l2=["verifL_C17_2:l2"], l2_shards=2,
+   bounds="3 sequential calls; 2 concurrent calls (all schedules), 2 callbacks"),
+ thorough=dict(harnesses=["verifH_C17_Seq4"], jobs=1, workers=14, l2=["verifL_C17_2:l2","verifL_C17_3:l2"], l2_shards=2, l2_timeout=300,
+   bounds="4 sequential calls; 2 and 3 concurrent calls (all schedules), 2 callbacks"))
 
 P["C18"]=dict(level="other",
  explanation="Metric emission is local to the operation that causes it, so 'under any interleaving' reduces to: on every path of every operation the multiset of StatsTracker.Add calls equals what the operation's outcome prescribes. One backend operation (Read with/without SkipRead, Write, Delete, DeleteAll, ExpireAll, Len/Walk) from a symbolic pre-state of <=2 entries on all three backends, and one Failover/FailoverOf[int] Get over a scripted backend (entry absent/fresh/stale/too stale, SyncRead, SyncUpdate, FailHard, FailedUpdateTTL on/off, builder outcome, write fault) are executed symbolically with a recording tracker; totals per metric and name label are compared.",
